@@ -304,6 +304,12 @@ class Analysis:
                         out = join(out, v_) if out is not None else v_
                     return out
             base = self.ev(fi, n, e.value, depth + 1)
+            if isinstance(base, tuple):
+                # a record (NamedTuple / dataclass) that came in through a call, a parameter or a field: its value is
+                # kept component-wise, the attribute selects the component
+                idx = self._record_index(e.attr, len(base))
+                if idx is not None:
+                    return base[idx]
             a = dom.attr(self, fi, n, e, base)
             if a is not None:
                 return a
@@ -322,8 +328,10 @@ class Analysis:
                 if out is not None:
                     return out
                 return BOT
+            if not flat(base):
+                return BOT      # no value has arrived yet (strict: a guess here would stick for good)
             # attribute of an object of unknown class: look the field up by name in all classes
-            if "OBJ" in flat(base) or not flat(base):
+            if "OBJ" in flat(base):
                 v = self._field_by_name(e.attr)
                 if v is not None:
                     return v
@@ -521,6 +529,25 @@ class Analysis:
             if extra is not None:
                 out = join(out if out is not None else BOT, extra)
             return out if out is not None else BOT
+
+    def _record_index(self, attr: str, arity: int) -> Optional[int]:
+        """Position of field *attr* in the record classes of the program that have *arity* fields (None unless all of
+        them agree)."""
+        tab = self.__dict__.get("_rec_tab")
+        if tab is None:
+            tab = self._rec_tab = {}
+            for ci in self.P.classes.values():
+                bases = {(dotted(b) or "").split(".")[-1] for b in ci.node.bases}
+                decos = {(dotted(x if not isinstance(x, ast.Call) else x.func) or "").split(".")[-1] for x in ci.node.decorator_list}
+                if "NamedTuple" not in bases and "dataclass" not in decos:
+                    continue
+                fields = [st.target.id for st in ci.node.body if isinstance(st, ast.AnnAssign) and isinstance(st.target, ast.Name)]
+                for i, f_ in enumerate(fields):
+                    tab.setdefault((f_, len(fields)), set()).add(i)
+        s_ = tab.get((attr, arity))
+        if s_ and len(s_) == 1:
+            return next(iter(s_))
+        return None
 
     def _mapping_values(self, fi: FuncInfo, n: Node, recv: ast.AST, depth: int):
         """Join of the values stored by ``m[k] = v`` into the mapping *recv* denotes, when *recv* is a local name, an
